@@ -25,7 +25,10 @@ HARNESS = dict(
 )
 TRUSTED = ["hand model lean/AwsVerif/Model/Codec.lean of the portable code paths (tied by this correspondence run only)",
            "generated tables lean/AwsVerif/Gen/CodecTables.lean (props/c05_gen.py: initialiser parser cross-checked against a compiled probe of the current encoding.c)",
-           "the AVX2 codec (source/arch/intel/encoding_avx2.c) is NOT modelled: CPU-path independence = theorem for the portable path + differential test against the vector build",
+           "hand model lean/AwsVerif/Model/CodecAvx2.lean of source/arch/intel/encoding_avx2.c: the documented meaning of the AVX2 intrinsics "
+           "(listed in the file header) is trusted; range constants, shuffle tables, loop bounds, fill/padding characters are regenerated "
+           "from the source (Gen/CodecAvx2Consts.lean), masks and shift counts of pack_vec/encode_stride are transcribed by hand; the model is "
+           "tied to the vector build by this correspondence run (P lines and the W lines of partial stores)",
            "Python stdlib base64/binascii and a 40-line RFC 3629 reference in the direct oracle"]
 ASSUMPTIONS = ["byte buffers passed in are valid (len <= capacity); on_codepoint callback succeeds; a caller stops feeding a decoder after an error",
                "UTF-8 validity is RFC 3629 *without* the U+10FFFF upper bound: the decoder accepts F4 90 80 80 .. F7 BF BF BF "
@@ -670,14 +673,16 @@ MANIFEST = dict(
     design_ref="5.5",
     text=("Lean 4 theorems over a model of the portable base64 / hex / UTF-8 code of source/encoding.c whose tables are "
           "regenerated from the source on every run: encode = RFC 4648 reference encoder (alphabet as a literal), decode∘encode = id, "
-          "decode accepts exactly the canonical encodings and reports exactly the bytes it stored, length functions exact or "
+          "decode accepts exactly the canonical encodings and reports exactly the bytes it stored, the AVX2 code path (hand model of "
+          "encoding_avx2.c, lane by lane) returns the same verdict / bytes / len as the portable one, length functions exact or "
           "overflow, hex lower-case / odd-length rule / round trip, UTF-8 verdict and code points independent of chunking, with and "
           "without an on_codepoint callback "
           "(and equal to RFC 3629 minus the U+10FFFF bound). Tied to /repo by a correspondence run of the compiled model against "
           "two builds of encoding.c in one binary (portable, and vector = AVX2 via cpuid) with canary-measured writes, "
           "plus a direct oracle using Python's base64/binascii."),
-    note=("Trusted: Lean kernel; hand-written model Model/Codec.lean (tied by correspondence only); table extractor; harness. "
-          "The AVX2 codec is not modelled: CPU-path independence = theorem for the portable path + differential test against "
-          "the vector build (every length 0..200, every byte value at every position of the final quantum, capacities)."),
+    note=("Trusted: Lean kernel; hand-written models Model/Codec.lean and Model/CodecAvx2.lean (tied by correspondence only); the "
+          "documented semantics of the AVX2 intrinsics; table / constant extractor; harness. CPU-path independence = theorems "
+          "c05_b64_avx2_decode_eq_portable / c05_b64_avx2_encode_eq_portable between the two models + three-way differential run "
+          "(every length 0..200, every byte value at every position of the final quantum, capacities)."),
     technique="Lean 4 proofs by induction over byte lists + exhaustive `decide` over the generated 256-entry tables + three-way differential run",
 )
